@@ -52,11 +52,20 @@ package fasthttp
 //@   intsize 64 32
 //@   noterm
 //@   uses lemma byteTables
+//   val: the number the hexadecimal digits read so far denote, most significant digit first (updated at every
+//   ReadByte that yields a digit); the function returns exactly that number.
+//@   ghost val int = 0
+//@   on call bufio.Reader.ReadByte -> c, e:
+//@     also
+//@     effect val = (e == nil && hexval1(c) < 16 ? val * 16 + hexval1(c) : val)
+//@   end
 //@   ensures[range]  err == nil ==> 0 <= v && v < pow16(maxHexIntChars)
 //@   ensures[errval] err != nil ==> v == -1
+//@   ensures[exact] err == nil ==> v == val
 //@   loop 1:
 //@     invariant[digits] 0 <= i && i <= maxHexIntChars
 //@     invariant[value]  0 <= n && n < pow16(i)
+//@     invariant[exact]  n == val
 
 // ---- date and IP codecs (C31) ----
 
